@@ -9,20 +9,20 @@ _LIFE_ASSUME = ["macro-step granularity: one op = one step the harness can sched
                 "after stopCh is closed only shutdown is scheduled (dcp.Start proceeds to close())",
                 "the fake client answers CloseStream with End(ErrDCPStreamClosed) synchronously, as the server does asynchronously"]
 PROPS["C11"] = {
-    "streams": ["life-reb"], "audit": "C11.lean", "retry_divergence": 2, "timeout": 900,
+    "streams": ["life-reb"], "audit": ["C11.lean", "C11Run.lean"], "modules": ["GoDcp.Props.C11", "GoDcp.Props.C11Run"], "retry_divergence": 2, "timeout": 900,
     "rule": _LIFE_RULE, "assumptions": _LIFE_ASSUME, "design_ref": "DESIGN.md §7 C11, §6 F5 F9a F9b",
     "level_text": "Lean model of Open/Close/Rebalance/rebalance/wait/listenEnd with Go timer semantics (Model/Life.lean), validated against the real stream on every run; kernel-checked: a notification inside the window only postpones the reopen to now+delay (notify_in_window_debounces), the full 'one cycle per burst' statement is refuted for the first-ever rebalance (one_cycle_per_burst_full_refuted = finding F5), run-level invariants (callbacks bracketed, no delivery while closed, reopen on the latest membership, exactly one cycle per burst outside F5) in Props/C11Run when present. The Lean monitor (callback automaton, no-delivery-while-closed, fail-stop and F5 classifiers) runs on every real trace.",
     "level_note": "partial: macro-step model (WaitPrompt hypothesis), F5 and F9a are known findings; trusted: Lean kernel, Model/Life.lean, the real-time L1 harness with its margins",
 }
 PROPS["C12"] = {
-    "streams": ["life-end"], "audit": "C12.lean", "retry_divergence": 2, "timeout": 900,
+    "streams": ["life-end"], "audit": ["C12.lean", "C12Run.lean"], "modules": ["GoDcp.Props.C12", "GoDcp.Props.C12Run"], "retry_divergence": 2, "timeout": 900,
     "rule": _LIFE_RULE, "assumptions": _LIFE_ASSUME + ["finite mode: the server ends a stream with OK exactly after the last event <= the requested end (simulated-node behaviour)"],
     "design_ref": "DESIGN.md §7 C12",
     "level_text": "Kernel-checked decision logic of listenEnd on the validated life-cycle model: a transient end while running re-requests the vBucket from its current position and leaves the count alone, every other end decrements the active count by exactly one, stopCh is closed at a final end iff it was the last one and the stream is neither rebalancing nor already stopped, ends after Close are ignored; tied to the real code by generated end-cause sequences over 1-4 vBuckets (each transient and final cause) with the OpenStream log, active count and stopCh compared.",
     "level_note": "partial: F9a (a reopen retry loop spanning a rebalance close kills the client) is a known finding outside the generated histories; trusted: Lean kernel, Model/Life.lean, L1 harness",
 }
 PROPS["C13"] = {
-    "streams": ["life-shut", "life-trail"], "audit": "C13.lean", "retry_divergence": 2, "timeout": 900,
+    "streams": ["life-shut", "life-trail"], "audit": ["C13.lean", "C13Run.lean"], "modules": ["GoDcp.Props.C13", "GoDcp.Props.C13Run"], "retry_divergence": 2, "timeout": 900,
     "rule": _LIFE_RULE, "assumptions": _LIFE_ASSUME + ["Close() = the stream-level part of dcp.close (Save when checkpoint.type=auto, then stream.Close); bounded time is measured by the harness, not proved"],
     "design_ref": "DESIGN.md §7 C13, §6 F4 F6",
     "level_text": "Kernel-checked on the validated life-cycle model: stream.Close crashes exactly when the observers map is nil (doClose_none_iff), otherwise it closes every vBucket stream, closes the observers (no later delivery, later ends ignored) and emits no fail-stop (doClose_clean); the full statement is refuted inside the rebalance window (close_terminates_full_refuted = finding F4). Tied to the real code by shutdowns injected after open, mid-history and at every step of a rebalance.",
